@@ -10,28 +10,32 @@ CONSTANTS T,      \* timeout, in clock units
           CAP,    \* capacity of the wire towards the client, in units
           MAXT    \* horizon
 VARIABLES now, lastAct, wire, pending, closed, reaped,
-          sweeps     \* number of sweeps so far (a sweep that finds nothing to do is still a step)
-vars == <<now, lastAct, wire, pending, closed, reaped, sweeps>>
-Init == now = 0 /\ lastAct = 0 /\ wire = 0 /\ pending = 0 /\ closed = FALSE /\ reaped = FALSE /\ sweeps = 0
+          sweeps,    \* number of sweeps so far (a sweep that finds nothing to do is still a step)
+          touches    \* number of undeliverable arrivals so far (keeps the step distinct from a delivered unit)
+vars == <<now, lastAct, wire, pending, closed, reaped, sweeps, touches>>
+Init == now = 0 /\ lastAct = 0 /\ wire = 0 /\ pending = 0 /\ closed = FALSE /\ reaped = FALSE /\ sweeps = 0 /\ touches = 0
 
-Advance == ~closed /\ now < MAXT /\ now' = now + 1 /\ UNCHANGED <<lastAct, wire, pending, closed, reaped, sweeps>>
+Advance == ~closed /\ now < MAXT /\ now' = now + 1 /\ UNCHANGED <<lastAct, wire, pending, closed, reaped, sweeps, touches>>
 \* the client sends a unit: the proxy reads it in its next iteration (client-side traffic)
-CSend == ~closed /\ lastAct' = now /\ UNCHANGED <<now, wire, pending, closed, reaped, sweeps>>
+CSend == ~closed /\ lastAct' = now /\ UNCHANGED <<now, wire, pending, closed, reaped, sweeps, touches>>
+\* bytes of the client arrive that cannot be handed on yet (part of a TLS record: the read answers "want read"): client-side
+\* traffic all the same
+CTouch == ~closed /\ touches < MAXT /\ lastAct' = now /\ touches' = touches + 1 /\ UNCHANGED <<now, wire, pending, closed, reaped, sweeps>>
 \* the upstream sends a unit: the proxy queues it for the client and writes it if the wire has room (client-side traffic)
 USend == /\ ~closed /\ pending + wire < CAP + 2
          /\ IF wire < CAP /\ pending = 0 THEN wire' = wire + 1 /\ lastAct' = now /\ UNCHANGED pending
             ELSE pending' = pending + 1 /\ UNCHANGED <<wire, lastAct>>
-         /\ UNCHANGED <<now, closed, reaped, sweeps>>
+         /\ UNCHANGED <<now, closed, reaped, sweeps, touches>>
 \* the client application reads a unit off the wire; the proxy can then write one pending unit (client-side traffic)
 CRead == /\ ~closed /\ wire > 0
          /\ IF pending > 0 THEN pending' = pending - 1 /\ lastAct' = now /\ UNCHANGED wire
             ELSE wire' = wire - 1 /\ UNCHANGED <<pending, lastAct>>
-         /\ UNCHANGED <<now, closed, reaped, sweeps>>
+         /\ UNCHANGED <<now, closed, reaped, sweeps, touches>>
 Idle == pending = 0 /\ now - lastAct > T
 Reap == /\ ~closed /\ sweeps < 2 * MAXT /\ sweeps' = sweeps + 1
         /\ IF Idle THEN closed' = TRUE /\ reaped' = TRUE ELSE UNCHANGED <<closed, reaped>>
-        /\ UNCHANGED <<now, lastAct, wire, pending>>
-Next == Advance \/ CSend \/ USend \/ CRead \/ Reap
+        /\ UNCHANGED <<now, lastAct, wire, pending, touches>>
+Next == Advance \/ CSend \/ CTouch \/ USend \/ CRead \/ Reap
 Spec == Init /\ [][Next]_vars
 
 \* the reaper only ever closes an idle connection (action property), and a sweep never leaves an idle one open
